@@ -29,8 +29,8 @@ type flowAux struct {
 	NegPosWant              int // negative-then-positive focus: body bytes due at the mark
 	Events                  []flowEvent
 	UploadBehindEarlyAnswer int
-	EarlyPause              int // the early-answer focus with a pause
-	EarlyShut               int // one early-answered 300 kB upload under a stream window of 0
+	EarlyPause              int               // the early-answer focus with a pause
+	EarlyShut               int               // one early-answered 300 kB upload under a stream window of 0
 	Streams                 map[uint32]string // stream id -> tag (GET downloads)
 	Bodies                  map[string][]byte // expected response bodies
 	Uploads                 map[uint32]int    // stream id -> request body bytes sent (incl. padding)
